@@ -61,8 +61,9 @@ def reply_spec(r):
         folds = r.get("folds", [])
         if folds and " " in value and i in [f % len(headers) for f in folds]:
             opts["folds"] = [0]
-        if r.get("fold_start") and i == r["fold_start"] % len(headers):
-            opts["pre"] = "\r\n "
+        fs = r.get("fold_start")
+        if fs is not None and i in [f % len(headers) for f in (fs if isinstance(fs, list) else [fs])]:
+            opts["pre"] = "\r\n" + (ows[0] or " ")
         out.append([name, value, opts])
     spec = {"status": r["status"], "reason": r.get("reason", "Switching Protocols"), "headers": out}
     if r.get("pad_to"):
@@ -99,9 +100,9 @@ class C10(Prop):
         hname = st.from_regex(r"X-[A-Za-z][A-Za-z0-9\-]{0,10}", fullmatch=True)
         hval = st.from_regex(r"[!-~]([ -~]{0,18}[!-~])?", fullmatch=True)
         reply = st.fixed_dictionaries({
-            "status": st.sampled_from(STATUSES),
+            "status": gen.weighted([(1, st.just(101)), (1, st.sampled_from(STATUSES))]),
             "reason": st.sampled_from(["Switching Protocols", "", "OK", "Web Socket Protocol Handshake", "Forbidden", "x y z"]),
-            "upgrade": st.one_of(st.none(), st.sampled_from(UPGRADES[:4] * 3 + UPGRADES)),
+            "upgrade": gen.weighted([(1, st.none()), (7, st.sampled_from(UPGRADES[:4] * 3 + UPGRADES))]),
             "accept": gen.weighted([(8, st.just("correct")), (8, st.sampled_from(ACCEPT_KINDS)), (1, st.just("missing"))]),
             "protocol": st.one_of(st.none(), token),
             "extra": st.lists(st.tuples(hname, hval).map(list), max_size=3),
@@ -110,7 +111,7 @@ class C10(Prop):
             "ows": st.lists(st.tuples(st.sampled_from(["", " ", "  ", "\t", " \t "]),
                                       st.sampled_from(["", " ", "\t", "  "])).map(list), min_size=1, max_size=3),
             "folds": st.lists(st.integers(0, 7), max_size=2),
-            "fold_start": st.one_of(st.none(), st.none(), st.integers(0, 7)),
+            "fold_start": st.one_of(st.none(), st.none(), st.lists(st.integers(0, 7), min_size=1, max_size=3)),
             "pad_to": st.one_of(st.none(), st.none(), st.none(), st.integers(16375, 16395),
                                 st.sampled_from([16384, 16385, 20000, 70000])),
             "terminate": gen.weighted([(6, st.just(True)), (1, st.just(False))]),
@@ -138,7 +139,35 @@ class C10(Prop):
                                "protocols": [], "headers": [], "agent": None, "compress": False,
                                "key": "000102030405060708090a0b0c0d0e0f", "key2": None, "seg": "whole",
                                "reply": {"status": status, "upgrade": up, "accept": a, "terminate": True}}
-        return [Enumeration("accept_x_upgrade_x_status", accepts, exhaustive=True)]
+        def spellings():
+            # every spelling dimension applied to each header of an otherwise canonical reply, once with the
+            # correct digest (must be Ready) and once with the digest of another key (must be Rejected)
+            pres = ["", " ", "  ", "\t", " \t "]
+            posts = ["", " ", "\t", "  "]
+            for accept in ("correct", "other_key"):
+                for target in range(3):
+                    for casing in range(4):
+                        for pre in pres:
+                            for post in posts:
+                                for fold in (None, [target]):
+                                    for order in ([], [2, 0], [1, 2, 0]):
+                                        # reply_spec permutes first and then indexes casing/ows/fold by position
+                                        pos = list(range(3))
+                                        for i, j in enumerate(order):
+                                            a, b = i % 3, j % 3
+                                            pos[a], pos[b] = pos[b], pos[a]
+                                        at = pos.index(target)
+                                        c2, o2 = [0, 0, 0], [[" ", ""], [" ", ""], [" ", ""]]
+                                        c2[at], o2[at] = casing, [pre, post]
+                                        yield {"url": {"scheme": "ws", "host": "example.test", "port": None, "path": "/",
+                                                       "query": ""},
+                                               "protocols": [], "headers": [], "agent": None, "compress": False,
+                                               "key": "000102030405060708090a0b0c0d0e0f", "key2": None, "seg": "whole",
+                                               "reply": {"status": 101, "upgrade": "websocket", "accept": accept,
+                                                         "terminate": True, "casing": c2, "ows": o2, "order": order,
+                                                         "fold_start": None if fold is None else [at]}}
+        return [Enumeration("accept_x_upgrade_x_status", accepts, exhaustive=True),
+                Enumeration("header_spellings", spellings, exhaustive=True)]
 
     def run_case(self, case):
         u = case["url"]
@@ -206,6 +235,10 @@ class C10(Prop):
         elif not terminated:
             labels.add("unterminated")
         if should_ready:
+            labels.add("ready_expected")
+            for h in spec["headers"]:
+                if h[0].lower() in ("upgrade", "sec-websocket-accept") and "\r\n" in h[2].get("pre", ""):
+                    labels.add("ready_expected+critical_header_folded")
             if "ready" not in names:
                 return failed("correct_reply_rejected", "reply %s -> events %s (%s)" % (
                     self.brief(spec), names, [e.get("reason") for e in tr.events if e["name"] == "rejected"]),
